@@ -81,6 +81,25 @@ func ruleGroupSpawn(c *Ctx, r *R) {
 		}
 	})
 	okGo := goIn != nil && add.Block().Dominates(goIn.Block())
+	if goIn != nil && !okGo {
+		// same decision, taken twice: the go statement is guarded by the very stopped-check (evaluated under the lock) that guards Add
+		var addErr, goErr ssa.Value
+		for _, g := range guardsOf(add.Block()) {
+			if cf, ok := g.asCmp(); ok && cf.op == token.EQL && isNilConst(cf.y) {
+				if ec, ok := cf.x.(*ssa.Call); ok && ec.Call.IsInvoke() && ec.Call.Method.Name() == "Err" {
+					addErr = ec
+				}
+			}
+		}
+		for _, g := range guardsOf(goIn.Block()) {
+			if cf, ok := g.asCmp(); ok && cf.op == token.EQL && isNilConst(cf.y) {
+				if ec, ok := cf.x.(*ssa.Call); ok && ec.Call.IsInvoke() && ec.Call.Method.Name() == "Err" {
+					goErr = ec
+				}
+			}
+		}
+		okGo = addErr != nil && addErr == goErr
+	}
 	r.ok(okGo, "xsync.Group.spawn|go-after-add", sp.Pos(), "the goroutine must be started only on the path that registered it")
 	if goIn != nil {
 		if clo := staticCallee(&goIn.Call); clo != nil {
@@ -137,7 +156,16 @@ func ruleGroupSpawn(c *Ctx, r *R) {
 				}
 			}
 		})
-		r.ok(stopIn != nil && waitIn != nil && stopIn.Block() == waitIn.Block() && idxIn(stopIn) < idxIn(waitIn), "xsync.Group.StopAndWait|stop-then-wait", sw.Pos(), "StopAndWait must Stop and then wg.Wait()")
+		if stopIn == nil {
+			// Stop inlined: cancel() under the write lock
+			hs := locksIn(sw, lockset{})
+			instrs(sw, func(b *ssa.BasicBlock, i int, in ssa.Instruction) {
+				if call, ok := in.(*ssa.Call); ok && strings.HasSuffix(path(call.Call.Value), ".cancel") && hs[call]["g.m"] == 'W' {
+					stopIn = call
+				}
+			})
+		}
+		r.ok(stopIn != nil && waitIn != nil && stopIn.Block() == waitIn.Block() && idxIn(stopIn) < idxIn(waitIn), "xsync.Group.StopAndWait|stop-then-wait", sw.Pos(), "StopAndWait must Stop (cancel under the write lock) and then wg.Wait()")
 	}
 }
 
@@ -200,7 +228,7 @@ func ruleGroupNoRunAfterStop(c *Ctx, r *R) {
 				continue
 			}
 			for _, a := range op.arms {
-				if a.kind == "ctx-done" && strings.HasSuffix(path(a.ctx), ".ctx") && a.body != nil {
+				if a.kind == "ctx-done" && strings.HasSuffix(path(resolveVal(a.ctx)), ".ctx") && a.body != nil {
 					if _, isRet := a.body.Instrs[len(a.body.Instrs)-1].(*ssa.Return); isRet || endsInRundefersReturn(a.body) {
 						if op.in.Block().Dominates(fcall.Block()) && reaches(fcall.Block(), op.in.Block()) {
 							okSel = true
@@ -278,9 +306,23 @@ func ruleGroupTrigger(c *Ctx, r *R) {
 		})
 		okTrig := false
 		if trig != nil {
-			ops := chanOpsOf(trig)
-			if len(ops) == 1 && ops[0].kind == "select" && !ops[0].blocking && len(ops[0].arms) == 1 && ops[0].arms[0].send && loadCell(ops[0].arms[0].ch) == trigCell {
-				okTrig = true
+			nOps := 0
+			seenFn := map[*ssa.Function]bool{}
+			for _, di := range deepInstrs(trig, 2) {
+				f := di.in.Parent()
+				if seenFn[f] {
+					continue
+				}
+				seenFn[f] = true
+				for _, op := range chanOpsOf(f) {
+					nOps++
+					if op.kind == "select" && !op.blocking && len(op.arms) == 1 && op.arms[0].send && (loadCell(argOf(op.arms[0].ch, di.calls)) == trigCell || (mk != nil && resolveVal(argOf(op.arms[0].ch, di.calls)) == ssa.Value(mk))) {
+						okTrig = true
+					}
+				}
+			}
+			if nOps != 1 {
+				okTrig = false
 			}
 		}
 		r.ok(okTrig, "xsync.Group."+n+"|trigger-is-nonblocking-send", fn.Pos(), "the trigger function must be exactly one non-blocking send on the trigger channel")
